@@ -111,6 +111,17 @@ func c02Gen(c *vfCtx, emit func(c02Case)) {
 			pairs("yaml", ydocs[:8], color, mode)
 		}
 	}
+	// a special token right at a reader's buffer boundary: the stored text must not be read back truncated there
+	for _, bl := range vfBoundaryLines() {
+		for _, tok := range []string{"---", "/-/-/-/", "[TestA - 2]"} {
+			if i := strings.Index(bl, tok); i > 0 {
+				for _, color := range []bool{false, true} {
+					emit(c02Case{API: "snap", S: bl + "\ntail", R: bl[:i], Color: color, Mode: "unset"})
+					emit(c02Case{API: "snap", S: "head\n" + bl + "\ntail", R: "head\n" + bl[:i], Color: color, Mode: "unset"})
+				}
+			}
+		}
+	}
 	// values larger than reader/writer buffers, differing in the last byte or in one late line
 	for _, b := range vfBigValues() {
 		for _, api := range []string{"snap", "ssnap", "yaml"} {
